@@ -102,6 +102,21 @@ func (wf *WarcFields) GetAll(name string) []string {
 	return result
 }
 
+// occursMoreThanOnce reports whether more than one field has the given, already normalized, name.
+// Unlike len(GetAll(name)) > 1 it allocates nothing and stops at the second occurrence.
+func (wf *WarcFields) occursMoreThanOnce(name string) bool {
+	n := 0
+	for _, nv := range *wf {
+		if nv.Name == name {
+			n++
+			if n > 1 {
+				return true
+			}
+		}
+	}
+	return false
+}
+
 // Has returns true if field exists.
 // This can be used to separate a missing field from a field for which value is the empty string.
 func (wf *WarcFields) Has(name string) bool {
